@@ -34,3 +34,35 @@ Theorem C17_order_irrelevant : forall (render : bytes -> option bytes) t ps ps',
   res_equiv (render_partials render t ps) (render_partials render t ps').
 Proof. exact order_irrelevant. Qed.
 Print Assumptions C17_order_irrelevant.
+
+(* engine state that survives between calls (loaded templates, what earlier Render /
+   RenderPartials calls left behind, the data object handed to the partials): as long
+   as the RESULT of Render does not depend on it, RenderPartials after ANY history of
+   earlier calls, from ANY initial state (a fresh engine included), is the pure loop,
+   so C17_keys / C17_content / C17_error_atomic apply to it.  The correspondence check
+   tests the hypothesis on the real engine (histories, fresh engines, mutating partials). *)
+Theorem C17_history_independent :
+  forall (St : Type) (renderS : St -> bytes -> St * option bytes) (render : bytes -> option bytes),
+  (forall s n, snd (renderS s n) = render n) ->
+  forall s0 (h : list (call)) t ps,
+    snd (render_partialsS St renderS (after St renderS s0 h) t ps) = render_partials render t ps.
+Proof. exact history_independent. Qed.
+Print Assumptions C17_history_independent.
+
+(* the hypothesis is needed: one data object shared by the partials of a request
+   (a partial that pushes onto a list, then one that prints its length) *)
+Theorem C17_shared_state_refuted :
+  exists ps p m,
+    snd (render_partialsS nat shared_render 2 (B "cart") ps) = Some m /\
+    In p ps /\ lookup p m <> alone_render (partial_name (B "cart") p).
+Proof. exact shared_state_refuted. Qed.
+Print Assumptions C17_shared_state_refuted.
+
+(* ... and: a lookup that does not load first fails on a fresh engine although every
+   requested partial renders alone *)
+Theorem C17_fresh_engine_refuted :
+  exists ps, (forall p, In p ps -> alone_render (partial_name (B "cart") p) <> None) /\
+    snd (render_partialsS nat lazy_render 0 (B "cart") ps) = None /\
+    render_partials alone_render (B "cart") ps <> None.
+Proof. exact fresh_engine_refuted. Qed.
+Print Assumptions C17_fresh_engine_refuted.
